@@ -5,10 +5,12 @@ CONSTANTS
   States = {"P", "R", "F"}
   Needs = {2}
   MaxHold = 1
+  EnableOut = FALSE
   EnableCons = FALSE
   UseMin = FALSE
   FlagProducerOnEdgeLoss = TRUE
 INVARIANT CacheExactSafe
 INVARIANT CacheExactAfter
+INVARIANT CacheExactReady
 INVARIANT TreeWellFormed
 CHECK_DEADLOCK FALSE
